@@ -24,7 +24,7 @@ def judge(prog, events, ans):
 def cases_for(run):
     rng = run.rng
     cases = []
-    n = 220 if run.tier == "quick" else 6000
+    n = 220 if run.tier == "quick" else 2500
     for i in range(n):
         prog = S.gen_prog(rng, allow_all=(i % 2 == 0), allow_self=False)
         keys = [("i", k) if i % 4 else ("s", k) for k in range(rng.range(1, 3))] if prog["partition"] else None
